@@ -307,7 +307,7 @@ func (v *vState) OnlyMatch(desc string) bool {
 }
 
 // Violation records an oracle failure found outside rapid (enumerations).
-func (v *vState) Violation(t testing.TB, only string, c any, format string, args ...any) {
+func (v *vState) Violation(t interface{ Errorf(string, ...any); Name() string }, only string, c any, format string, args ...any) {
 	msg := fmt.Sprintf(format, args...)
 	v.mu.Lock()
 	v.violations = append(v.violations, vFail{Test: t.Name(), Message: msg, Case: c, Only: only})
@@ -343,7 +343,7 @@ func rcheck(t *testing.T, name string, n int, prop func(*rapid.T)) {
 			return
 		}
 		defer func() {
-			if t.Failed() {
+			if t.Failed() && V.harnessErr == "" {
 				V.mu.Lock()
 				V.violations = append(V.violations, vFail{Test: t.Name(), Message: V.lastMsg, Case: V.lastCase})
 				V.mu.Unlock()
@@ -411,7 +411,7 @@ func (v *vState) flush() {
 }
 
 // HarnessError marks the run as broken machinery (exit 2), never a verdict.
-func (v *vState) HarnessError(t testing.TB, format string, args ...any) {
+func (v *vState) HarnessError(t interface{ Fatalf(string, ...any) }, format string, args ...any) {
 	msg := fmt.Sprintf(format, args...)
 	v.mu.Lock()
 	v.harnessErr = msg
